@@ -580,6 +580,17 @@ static void run_c04() {
         run_termset(*g_list, {{'r', "a+"}, {'c', "b"}}, longs, false, 0);
         run_termset(*g_list, {{'c', "b"}, {'r', "[ac]+"}}, longs, false, 0);
         g_step_limit = saved; ctr["C04.long_lexeme_sweep_inputs"] += (long)longs.size() * 2;
+        // every byte value on its own, and byte sequences a maintainer might be tempted to treat specially (byte order marks, Unicode spaces and line
+        // separators in UTF-8, NEL, Ctrl-Z, DEL): alone, before, after and between terms - exactly the documented whitespace is skipped, nothing else
+        std::vector<std::string> bytes;
+        for (int b = 0; b < 256; ++b) { std::string x(1, char(b)); bytes.push_back(x); bytes.push_back("a" + x); bytes.push_back(x + "a"); bytes.push_back("a" + x + "a"); bytes.push_back(x + x + "a"); }
+        for (const char* sq : {"\xef\xbb\xbf", "\xff\xfe", "\xfe\xff", "\xc2\xa0", "\xc2\x85", "\xe2\x80\xa8", "\xe2\x80\xa9", "\xe2\x80\x8b", "\xe3\x80\x80", "\r\n", "\n\r", "\x1a", "\x7f", "\x1b[0m", "\xef\xbb", "\xef\xbb\xbf\xef\xbb\xbf"}) {
+            std::string q(sq); bytes.push_back(q); bytes.push_back(q + "a"); bytes.push_back("a" + q); bytes.push_back("a" + q + "a"); bytes.push_back(" " + q + "a"); bytes.push_back(q + " a"); bytes.push_back("a\n" + q + "a");
+        }
+        run_termset(*g_list, {{'c', "a"}}, bytes, false, 0);
+        run_termset(*g_list, {{'c', "a"}, {'r', "[\\x80-\\xff]+"}}, bytes, false, 0);
+        run_termset(*g_list, {{'r', "[^a]"}, {'c', "a"}}, bytes, false, 0);
+        ctr["C04.byte_sweep_inputs"] += (long)bytes.size() * 3;
     }
 }
 
@@ -631,6 +642,10 @@ static void run_c10() {
         // one-dimensional sweep (not exhaustive): columns and line numbers around 2^8, 2^16 and 2^17, reached by whitespace runs, by newline runs,
         // by a long lexeme and by many terms on one line; term values and both kinds of message must still carry the true position
         std::vector<std::string> longs;
+        // lines and columns of seven digits each (a formatted position of 17 characters)
+        longs.push_back(std::string(1000000, '\n') + std::string(1000000, ' ') + "?");
+        longs.push_back(std::string(1000000, '\n') + std::string(1000000, ' ') + "x x");
+        longs.push_back(std::string(1234567, '\n') + "q" + std::string(1234567, 'a') + ";x");
         for (size_t n : {255u, 256u, 65534u, 65535u, 65536u, 65537u, 70000u, 131072u, 200000u}) {
             longs.push_back(std::string(n, ' ') + "x");  longs.push_back(std::string(n, '\n') + "x;");
             longs.push_back(std::string(n, ' ') + "?");  longs.push_back(std::string(n, '\n') + " ?");          // Unexpected character far right / far down
